@@ -29,7 +29,7 @@ def window(win, t):
 SLACK = 60        # the default ts_threshold
 
 
-def one(F, T, kind, certs, fs, sf, t=T0, seedmap=seed_of, corrupt=None, ahead=SLACK, allowed='00', flag='00', perturb=None):
+def one(F, T, kind, certs, fs, sf, t=T0, seedmap=seed_of, corrupt=None, ahead=SLACK, allowed='00', flag='00', perturb=None, predef=b''):
     """`ahead` (>= SLACK): how far a "future" execution timestamp is ahead of the verifier clock."""
     wins = [c['win'] for c in certs]
     now = t - ahead if 'future' in wins else t - (SLACK - 1) if 'slackm1' in wins else t
@@ -55,7 +55,7 @@ def one(F, T, kind, certs, fs, sf, t=T0, seedmap=seed_of, corrupt=None, ahead=SL
         cache = {**sf, 'timestamp': t}
         if perturb:           # a sigfield changed after signing
             cache[perturb] = cache[perturb] + b'!'
-        ok = F.run_auth_scripts([bytes(wit.bytes), bytes(lock.bytes)], cache)
+        ok = F.run_auth_scripts([predef + bytes(wit.bytes), bytes(lock.bytes)], cache)
         return 'true' if ok else 'false'
     finally:
         F.time = old
@@ -123,9 +123,15 @@ def record_random(args):
                 flag, perturb, model_fs = f'{1 << bit:02x}', other, 0
             elif outside:
                 flag, model_fs = f'{1 << r.choice(outside):02x}', 0
+        # an adversarial witness may define handle 0 before the lock does: the lock's own definition is the one that runs
+        predef = b''
+        if r.random() < 0.15:
+            from ..gen.progs import op as _op, b1 as _b1, u16 as _u16
+            body = r.choice([_op('POP0') + _op('TRUE'), _op('TRUE'), _op('POP0') + _op('POP0') + _op('TRUE')])
+            predef = _op('DEF', _b1(0), _u16(len(body)), body)
         try:
             got = one(F, T, kind, certs, fs, sf, t, lambda k: keys[k], corrupt, r.choice([SLACK, SLACK, SLACK + 1, 10 ** 6]),
-                      allowed, flag, perturb)
+                      allowed, flag, perturb, predef)
         except BaseException as e:
             if isinstance(e, (KeyboardInterrupt, SystemExit)):
                 raise
